@@ -92,11 +92,14 @@ def evaluate(case, text, cits):
 def replay(case):
     if case["tok"] in ("HS", "REF"):
         tokenizer(case["tok"])
+    out = []
     try:
-        text, cits = dd.extract(case)
+        for steps in case.get("steps_seq") or [case.get("steps")]:
+            text, cits = dd.extract(dict(case, steps=steps) if steps else case)
+            out += [{"msg": f"{lab}: {det} [steps={steps}] :: {dd.brief(case)}", "label": lab} for lab, det in evaluate(case, text, cits)]
     except Exception:  # noqa: BLE001
-        return []
-    return [{"msg": f"{lab}: {det} :: {dd.brief(case)}", "label": lab} for lab, det in evaluate(case, text, cits)]
+        return out
+    return out
 
 
 def shards(tier, seed):
@@ -105,7 +108,10 @@ def shards(tier, seed):
     for tok in ("AC", "HS", "REF"):
         out += dd.seq_shards("plain-" + tok, "A0", len(A0), d[tok], tok)
     for tok in ("AC", "HS"):
-        out += dd.seq_shards("markup-" + tok, "MK", len(MK), d["MK"], tok, extra={"markup": True})
+        out += dd.seq_shards(
+            "markup-" + tok, "MK", len(MK), d["MK"], tok,
+            extra={"markup": True, "steps_seq": [["html"], ["html", "all_whitespace"], ["html", "inline_whitespace"]]},
+        )
     out += dd.seq_shards(
         "markup-inline-AC", "MK", len(MK), 2, "AC", extra={"markup": True, "steps": ["html", "inline_whitespace"]}
     )
